@@ -103,3 +103,12 @@ CHECKS["C08"] = dict(
         dict(pkg="server", name="C08_append", bound="header + 2 records cut at every offset, then reopen for append, write one symbolic record, flush, reload", flags=["-witness", "100"], reach=["end"]),
     ],
 )
+
+CHECKS["C07"] = dict(
+    explanation="bounded symbolic execution of the whole persist-and-reload chain (LockDB.Lock -> AddExpried -> AofChannel.Push/Handle -> Aof.PushLock -> AofFile.WriteLock/Flush; LoadAofFiles -> LoadLock -> HandleLoad -> LockDB.Lock(FROM_AOF)) over the file model, with symbolic expiry",
+    assumptions=["file model: full reads / whole-buffer writes", "server time set explicitly on both instances"],
+    harnesses=[
+        dict(pkg="server", name="C07_restart", bound="one key, one hold: every 16-bit E != 0, seconds/minute/unlimited, aof timing default / persist-immediately / never, symbolic Count and Rcount, depth 1..2, age 0..2 s before the stop, outage 0/1/2/61/4000 s", flags=["-witness", "20", "-timeout", "3000"],
+             reach=["end", "restored", "not-restored", "not-persisted"]),
+    ],
+)
